@@ -78,7 +78,7 @@ func init() {
 				Old: "if i == 0 && j == 0 && k == 0 {", New: "if i == 0 && j == 0 {",
 				More: [][2]string{{"for k, z := range []float64{min.Z, max.Z} {\n\t\t\t\tc := m.Matrix.MulColumn", "for _, z := range []float64{min.Z, max.Z} {\n\t\t\t\tc := m.Matrix.MulColumn"}}, Rule: "FIRSTITER", Expect: "Matrix3Transform"},
 			{Name: "mirrored scale collapses its bounds", File: "model2d/transform.go",
-				Old: "\treturn min.Min(max), max.Max(min)", New: "\tmin = min.Min(max)\n\tmax = max.Max(min)\n\treturn min, max", Rule: "ABSORB", Expect: "ApplyBounds"},
+				Old: "\treturn min.Min(max), max.Max(min)", New: "\tmin = min.Min(max)\n\tmax = max.Max(min)\n\treturn min, max", All: true, Rule: "ABSORB", Expect: "ApplyBounds"},
 			{Name: "direction pushed through the point map (defect F4)", File: "model3d/transform.go",
 				Old: "Direction: t.inv.Apply(r.Origin.Add(r.Direction)).Sub(origin),", New: "Direction: t.inv.Apply(r.Direction),", Rule: "UNIT", Expect: "innerRay"},
 			{Name: "ray parameter scaled like a length (defect F4)", File: "model2d/transform.go",
